@@ -24,9 +24,9 @@ func main() {
 	flag.Parse()
 	if *cpuworker != "" {
 		var seed int64
-		var lo, hi int
-		fmt.Sscanf(strings.ReplaceAll(*cpuworker, "|", " "), "%d %d %d", &seed, &lo, &hi)
-		cpuWorkerMain(seed, *plan, lo, hi)
+		var lo, hi, skip int
+		fmt.Sscanf(strings.ReplaceAll(*cpuworker, "|", " "), "%d %d %d %d", &seed, &lo, &hi, &skip)
+		cpuWorkerMain(seed, *plan, lo, hi, skip)
 		return
 	}
 	if flag.NArg() != 1 || *dir == "" {
